@@ -23,15 +23,20 @@ PROPERTY_ID = "C07"
 LEVEL = "exploration"
 RULE = (
     "lf_history sub-check: a case is a model (HKY85, GTR, TN93, F81, GN, gamma-binned HKY85, GeneralStationary, codon MG94HKY; "
-    "optionally built with optimise_motif_probs=True), a tree of 3-5 tips, an alignment and a history of 1-10 steps drawn from "
-    "set_param_rule (global / edge subsets / single edge, value or init, constant or free, independent or shared, optional "
-    "lower / upper bounds, inits beyond the bounds), set_motif_probs, set_alignment, set_time_heterogeneity, set_local_clock, "
+    "optionally built with optimise_motif_probs=True; HKY85 / TN93 / GTR / GN in 2 cases of 5 also with bins=2|3|[names] without a "
+    "distribution, loci=[2-3 names] with one alignment per locus, or both), a tree of 3-5 tips, an alignment (one per locus) and a "
+    "history of 1-10 steps drawn from "
+    "set_param_rule (global / edge subsets / single edge, and for rate parameters of a function with bins / loci also bin= / bins= / "
+    "locus= / loci= alone or together with edge= / edges=; value or init, constant or free, independent or shared, optional "
+    "lower / upper bounds, inits beyond the bounds), set_motif_probs (of all loci or of one: locus=), set_alignment, set_time_heterogeneity, set_local_clock, "
     "updates_postponed blocks and apply_param_rules batches of 2-4 such steps, REJECTED changes (unknown edge, edge and edges "
-    "together, crossed bounds, unknown / derived parameter, unknown dimension, motif probabilities not summing to one) on their "
+    "together, crossed bounds, unknown / derived parameter, unknown dimension, unknown bin / locus, motif probabilities not summing to one) on their "
     "own and inside a postponed block / batch, a short optimise, and export/import of the parameter rules. The history "
-    "continues after a rejected change. The harness keeps its own record of the intended settings ((parameter, edge) -> value "
-    "and bounds, motif and bin probabilities) from the step encodings; after every step every reported parameter value is "
-    "compared with the record and lf.lnL with a newly built function holding the record as constants. calculator sub-check: a "
+    "continues after a rejected change. The harness keeps its own record of the intended settings ((parameter, edge, bin, locus) -> value "
+    "and bounds, motif probabilities per locus, bin probabilities) from the step encodings; after every step every reported parameter value is "
+    "compared with the record and lf.lnL with a newly built function holding the record as constants. The rules step applies lf.get_param_rules() "
+    "to a newly built function, which must report the same lnL and number of free parameters (a failure is tagged [non-rectangular-scope] when two "
+    "exported rules of one parameter name overlapping scopes, i.e. when the order of the rules matters). calculator sub-check: a "
     "calculator made from a partly constrained function is driven through 2-12 change vectors (single and multiple changes, "
     "reverts to the previous vector, reverts combined with a change of other coordinates as line searches emit, reverts of only a part of the previous step, repeats, "
     "values at and beyond the bounds, changes through calc.change with explicit (index, value) lists) and compared after every "
@@ -47,7 +52,11 @@ ASSUMPTIONS = [
     "rejections asserted: unknown edge -> InvalidScopeError and unknown dimension -> InvalidDimensionError (tests/test_recalculation.py), edge= together with edges= -> TreeError, crossed bounds -> ValueError, derived parameter -> ValueError ('not settable as it is derived from'), unknown parameter -> KeyError, motif probabilities summing to 2 -> ValueError",
     "GeneralStationary may reject a rate combination (ParameterOutOfBoundsError) at whichever call first evaluates it. The rejected change is assigned but not (completely) recalculated: what lnL and get_param_value report between such a rejection and the next accepted change is not specified and not compared; the record keeps the assigned values and the history continues: from the next accepted change on the function must again agree with the record and with a fresh function (a rejected top-level set_motif_probs stops the recording of motif probabilities, a rejected optimise ends the case). For GeneralStationary the fresh function is filled inside one updates_postponed block so that only the final combination is evaluated",
     "set_local_clock is only used on two tips attached to the same internal node other than the root (its docstring: 'only valid for tips connected to the same node'); both lengths become the mean of the current two",
-    "set_time_heterogeneity applies one rule per (edge set, rate parameter of the model) with the given is_independent / is_constant / value / init / lower / upper; not used on the gamma-binned model (an independent kappa would also split between bins) nor on GeneralStationary",
+    "set_time_heterogeneity applies one rule per (edge set, rate parameter of the model) with the given is_independent / is_constant / value / init / lower / upper (all bins and loci of the edge set; is_independent=True also splits between bins and loci); not used on the gamma-binned model nor on GeneralStationary",
+    "dimensions (class attributes of LengthDefn / SubstitutionParameterDefn; PartitionDefn of mprobs / bprobs): length has the dimension edge only, rate parameters edge x bin x locus, the gamma shape none, motif probabilities locus (x edge, never split by edge here), bin probabilities locus (only ever set for all loci here). A rule names categories per dimension, a dimension not named = all of it (interpret_scopes); is_independent=True makes every selected (edge, bin, locus) its own setting, otherwise the selection shares one (default: shared, for length independent). bins without a distribution are a documented construction (doc/examples/hmm_par_heterogeneity.rst, codon_models.rst, tests test_simulateHetergeneousAlignment), bin and edge scopes together are used by tests/test_evolve/test_likelihood_function.py::test_time_rate_het (the Zhang model), loci by test_get_param_rules_multilocus / test_set_multilocus",
+    "set_motif_probs(..., locus=x) changes locus x only (tests/test_evolve/test_parameter_controller.py::test_set_multilocus); the motif probabilities of the other loci are read before such a step and are part of the record from then on. Any set_motif_probs call, whichever locus it names, stops the derivation of motif probabilities from later alignments for all loci (source comment 'should be done per-locus'): modelled as implemented, not asserted as a requirement",
+    "get_param_rules is documented as 'returns the [{rule}, ..] that would allow reconstruction': apply_param_rules(rules) on a newly built function of the same construction must reproduce lnL and the number of free parameters whatever the scopes; reported values are read with the full scope (edge=, bin=, locus=), which is unambiguous",
+    "unknown bin / locus names in a rule -> InvalidScopeError (same path as an unknown edge)",
     "an evaluation that raises inside the calculator (value outside the feasible region) is an allowed outcome; the next evaluation must again agree with a fresh calculator",
     "optimise is limited to <= 20 evaluations with limit_action='ignore'; only consistency of reported values and reported lnL is asserted after it",
 ]
@@ -78,9 +87,29 @@ RATE_PARAMS = {
     "MG94HKY": ["kappa", "omega"],
 }
 TIME_HET_MODELS = ["HKY85", "GTR", "TN93", "GN", "MG94HKY"]
+# models that are also built with several bins (no distribution: every rate parameter may differ between bins, the
+# bin probabilities are a free parameter) and / or several loci (one alignment per locus)
+DIM_MODELS = ["HKY85", "TN93", "GTR", "GN"]
+BIN_CHOICES = [2, 2, ["slow", "fast"], 3]
+LOCI_CHOICES = [["x", "y"], ["x", "y"], ["l1", "l2", "l3"]]
 SENSE_CODONS = ["ATG", "GCT", "GCC", "AAA", "AAG", "TTT", "CTG", "GAT", "GAC", "CCC", "TGG", "ACG", "GGT", "CAT", "AGA", "TCA"]
 BAD_KINDS = ["unknown-edge", "unknown-edge-in-list", "edge-and-edges", "crossed-bounds", "unknown-par", "derived-par", "unknown-dimension", "mprobs-sum"]
+BAD_KINDS_DIMS = ["unknown-bin", "unknown-locus"]  # only where a rate parameter exists
 POISON_SIG = "after-error-in-postponed-block/stale-state"
+
+
+def bin_names(case):
+    """names of the bins of the case's function, None when it has a single bin"""
+    b = case.get("bins")
+    if case["model"] == "HKY85+G":
+        b = b or 3
+    if not b:
+        return None
+    return [f"bin{i}" for i in range(b)] if isinstance(b, int) else list(b)
+
+
+def locus_names(case):
+    return list(case["loci"]) if case.get("loci") else None
 
 
 def default_bounds(par):
@@ -117,13 +146,16 @@ def mprobs_st():
 
 
 @st.composite
-def param_step(draw, model, edges):
+def param_step(draw, model, edges, bins=None, loci=None):
     pars = RATE_PARAMS[model]
     choices = ["length"] * 2 + (pars or []) * 2
     if model == "HKY85+G":
         choices.append("rate_shape")
     if model == "GS":
         choices = ["length", "GSPAR"]
+    if (bins or loci) and pars and model != "HKY85+G":
+        # histories that carve one parameter repeatedly along several dimensions
+        choices = ["length"] + pars + pars[:2] * 4
     par = draw(st.sampled_from(choices))
     value = round(draw(st.floats(0.05, 4.0)), 4)
     if par == "GSPAR":
@@ -135,12 +167,17 @@ def param_step(draw, model, edges):
         # an init outside them is moved to the nearer bound
         step["lower"] = draw(st.sampled_from([None, 0.01, 0.2]))
         step["upper"] = draw(st.sampled_from([None, 3.0, 8.0]))
-    if model == "HKY85+G" and par == "kappa":
-        # with rate bins an "independent" kappa would also differ between bins; keep it global
-        return step
     if par == "rate_shape":
         return step
-    scope_kind = draw(st.sampled_from(["global", "edge", "edges", "edges"]))
+    if par not in ("length", "GSPAR"):
+        # rate parameters have the dimensions edge x bin x locus: the rule may name one / several bins and loci
+        if bins and draw(st.integers(0, 2)) < (1 if model == "HKY85+G" else 2):
+            k = draw(st.sampled_from([1, 1, 2, len(bins)]))
+            step["bins"] = sorted(draw(st.permutations(bins))[:k])
+        if loci and draw(st.integers(0, 2)) < 2:
+            k = draw(st.sampled_from([1, 1, 2, len(loci)]))
+            step["loci"] = sorted(draw(st.permutations(loci))[:k])
+    scope_kind = draw(st.sampled_from(["global", "edge", "edges", "edges"] + (["edge"] * 3 if step.get("bins") or step.get("loci") else [])))
     if scope_kind == "global":
         scope = None
     elif scope_kind == "edge":
@@ -148,7 +185,8 @@ def param_step(draw, model, edges):
     else:
         k = draw(st.integers(2, len(edges)))
         scope = sorted(draw(st.permutations(edges))[:k])
-    indep = draw(st.sampled_from([None, True, False])) if scope is None or len(scope) > 1 else None
+    several = scope is None or len(scope) > 1 or (bins and len(step.get("bins") or bins) > 1) or (loci and len(step.get("loci") or loci) > 1)
+    indep = draw(st.sampled_from([None, True, False])) if several else None
     if par == "length":
         value = round(draw(st.floats(0.001, 2.0)), 4)
         if not const and draw(st.integers(0, 11)) == 0:
@@ -158,14 +196,15 @@ def param_step(draw, model, edges):
 
 
 @st.composite
-def bad_step(draw, model, edges, rule_only=False):
+def bad_step(draw, model, edges, rule_only=False, dims=False):
     kinds = [k for k in BAD_KINDS if not (rule_only and k == "mprobs-sum")]
     pars = ["length"] + (RATE_PARAMS[model] or [])
     es = draw(st.permutations(edges))
+    kind = draw(st.sampled_from(kinds + (BAD_KINDS_DIMS if dims and RATE_PARAMS[model] else [])))
     return {
         "op": "bad",
-        "kind": draw(st.sampled_from(kinds)),
-        "par": draw(st.sampled_from(pars)),
+        "kind": kind,
+        "par": draw(st.sampled_from(pars[1:] if kind in BAD_KINDS_DIMS else pars)),
         "edge": es[0],
         "edge2": es[1],
         "value": round(draw(st.floats(0.05, 2.0)), 4),
@@ -178,43 +217,70 @@ def lf_cases(draw):
     newick, tips, edges = draw(st.sampled_from(TREES[:2] + TREES[3:] if model == "MG94HKY" else TREES))
     gaps_ok = model != "GS"
     codon = model == "MG94HKY"
-    aln = draw(aln_st(tips, gaps_ok, codon))
+    case = {"model": model, "tree": newick, "edges": edges}
+    if model == "HKY85+G" and draw(st.integers(0, 2)) == 0:
+        case["bins"] = 4
+    if model in DIM_MODELS and draw(st.integers(0, 4)) < 2:
+        # several bins without a distribution, several loci, or both
+        which = draw(st.sampled_from(["bins", "loci", "bins", "loci", "both"]))
+        if which in ("bins", "both"):
+            case["bins"] = draw(st.sampled_from(BIN_CHOICES if which == "bins" else BIN_CHOICES[:3]))
+        if which in ("loci", "both"):
+            case["loci"] = draw(st.sampled_from(LOCI_CHOICES if which == "loci" else LOCI_CHOICES[:2]))
+    bins, loci = bin_names(case), locus_names(case)
+    dims = bool(bins or loci)
+
+    def one_aln():
+        # one alignment per locus
+        return [draw(aln_st(tips, gaps_ok, codon)) for _ in loci] if loci else draw(aln_st(tips, gaps_ok, codon))
+
+    def one_mprobs():
+        step = {"op": "set_mprobs", "probs": draw(mprobs_st())}
+        if loci and draw(st.integers(0, 3)) > 0:
+            step["locus"] = draw(st.sampled_from(loci))
+        return step
+
+    aln = one_aln()
     steps = []
     top = ["param"] * 6 + ["mprobs", "alignment", "postponed", "postponed", "optimise", "rules", "bad", "bad"]
+    if dims:
+        top += ["param"] * 3 + ["rules"] * 2
+    if loci:
+        top += ["mprobs"] * 2
     if model in TIME_HET_MODELS:
         top.append("time_het")
     if SISTERS[newick]:
         top.append("local_clock")
     for _ in range(draw(st.integers(1, 10))):
         kind = draw(st.sampled_from(top))
-        if kind == "param" and model == "HKY85+G" and draw(st.integers(0, 5)) == 0:
+        if kind == "param" and bins and draw(st.integers(0, 5 if model == "HKY85+G" else 9)) == 0:
             # the bin probabilities are parameters too (kept well inside the bounds the optimiser puts on them)
-            w = draw(st.lists(st.sampled_from([0.02, 0.05, 0.3, 1.0]), min_size=3, max_size=3))
+            w = draw(st.lists(st.sampled_from([0.02, 0.05, 0.3, 1.0]), min_size=len(bins), max_size=len(bins)))
             steps.append({"op": "set_bprobs", "probs": [x / sum(w) for x in w]})
         elif kind == "param":
-            steps.append(draw(param_step(model, edges)))
+            steps.append(draw(param_step(model, edges, bins, loci)))
         elif kind == "mprobs":
-            steps.append({"op": "set_mprobs", "probs": draw(mprobs_st())})
+            steps.append(one_mprobs())
         elif kind == "alignment":
-            steps.append({"op": "set_alignment", "rows": draw(aln_st(tips, gaps_ok, codon))})
+            steps.append({"op": "set_alignment", "rows": one_aln()})
         elif kind == "postponed":
             via = draw(st.sampled_from(["block", "block", "apply_rules"]))
             inner = []
             for _ in range(draw(st.integers(2, 4))):
                 k2 = "param" if via == "apply_rules" else draw(st.sampled_from(["param"] * 6 + ["mprobs", "mprobs", "alignment"]))
                 if k2 == "param":
-                    inner.append(draw(param_step(model, edges)))
+                    inner.append(draw(param_step(model, edges, bins, loci)))
                 elif k2 == "mprobs":
-                    inner.append({"op": "set_mprobs", "probs": draw(mprobs_st())})
+                    inner.append(one_mprobs())
                 else:
-                    inner.append({"op": "set_alignment", "rows": draw(aln_st(tips, gaps_ok, codon))})
+                    inner.append({"op": "set_alignment", "rows": one_aln()})
             if draw(st.integers(0, 2)) == 0:
-                inner.insert(draw(st.integers(0, len(inner))), draw(bad_step(model, edges, rule_only=via == "apply_rules")))
+                inner.insert(draw(st.integers(0, len(inner))), draw(bad_step(model, edges, rule_only=via == "apply_rules", dims=dims)))
             steps.append({"op": "postponed", "steps": inner, "via": via})
         elif kind == "bad":
-            bad = draw(bad_step(model, edges))
+            bad = draw(bad_step(model, edges, dims=dims))
             steps.append(bad)
-            if draw(st.booleans()) and not (model == "HKY85+G" and bad["par"] == "kappa"):
+            if draw(st.booleans()):
                 # a rejected rule followed by an accepted one for the same parameter elsewhere: the
                 # parameter is re-evaluated, so anything the rejected rule left behind becomes visible
                 steps.append({"op": "set_param", "par": bad["par"], "scope": [bad["edge2"]], "value": round(draw(st.floats(0.05, 2.0)), 4), "const": draw(st.booleans()), "indep": None, "idx": 0})
@@ -240,9 +306,9 @@ def lf_cases(draw):
             steps.append({"op": "optimise", "max_evals": draw(st.integers(1, 20))})
         else:
             steps.append({"op": "rules"})
-    case = {"model": model, "tree": newick, "edges": edges, "aln": aln, "steps": steps}
-    if model == "HKY85+G" and not any(st_["op"] == "set_bprobs" for st_ in steps) and draw(st.booleans()):
-        case["bins"] = 4
+    if dims and draw(st.booleans()):
+        steps.append({"op": "rules"})
+    case.update(aln=aln, steps=steps)
     if model != "GS" and draw(st.integers(0, 3)) == 0:
         case["opt_mprobs"] = True
     return case
@@ -276,8 +342,10 @@ def build_lf(case, rows, exp=None):
     from cogent3 import make_aligned_seqs, make_tree
 
     sm, kw = make_model(case["model"])
-    if "bins" in kw and case.get("bins"):
+    if case.get("bins"):
         kw["bins"] = case["bins"]
+    if case.get("loci"):
+        kw["loci"] = list(case["loci"])
     if case.get("opt_mprobs"):
         kw["optimise_motif_probs"] = True
     tree = make_tree(case["tree"])
@@ -285,21 +353,33 @@ def build_lf(case, rows, exp=None):
         for e in exp.edges:
             node = tree.get_node_matching_name(e)
             for par in exp.pars:
+                if par == "rate_shape":
+                    continue
+                v = exp.edge_value(par, e)
                 if par == "length":
-                    node.length = exp.val[(par, e)]
-                elif par != "rate_shape":
-                    node.params[par] = exp.val[(par, e)]
+                    node.length = v
+                elif exp.uniform(par):  # else: differs between bins / loci, set by explicit rules (fresh_lnl)
+                    node.params[par] = v
     lf = sm.make_likelihood_function(tree, **kw)
-    lf.set_alignment(make_aligned_seqs(dict(rows), moltype="dna"))
+    lf.set_alignment(make_alns(rows))
     return lf
+
+
+def make_alns(rows):
+    """one alignment, or for a multi-locus function the list of alignments in the order of the loci"""
+    from cogent3 import make_aligned_seqs
+
+    if isinstance(rows, list):
+        return [make_aligned_seqs(dict(r), moltype="dna") for r in rows]
+    return make_aligned_seqs(dict(rows), moltype="dna")
 
 
 def scoped_params(lf):
     return [p for p in lf.get_param_names() if p not in ("mprobs", "bprobs", "rate")]
 
 
-def reported_mprobs(lf):
-    mp = lf.get_motif_probs()
+def reported_mprobs(lf, locus=None):
+    mp = lf.get_motif_probs() if locus is None else lf.get_motif_probs(locus=locus)
     d = mp.to_dict() if hasattr(mp, "to_dict") else dict(mp)
     return [float(d[b]) for b in "ACGT"]
 
@@ -309,29 +389,54 @@ class Expect:
 
     def __init__(self, case, pars):
         self.edges = list(case["edges"])
+        self.bins = bin_names(case)  # None: one bin, the dimension is never named
+        self.loci = locus_names(case)
         self.pars = list(pars)  # scoped parameters incl. length and rate_shape
-        self.val = {}
+        self.val = {}  # (par, edge, bin, locus) -> value; None where the parameter lacks the dimension
         self.bnd = {}  # (lower, upper) of a free setting, None for a constant
         for par in self.pars:
             for k in self.keys(par):
                 self.val[k] = TREE_LENGTHS[case["tree"]][k[1]] if par == "length" else 1.0
                 self.bnd[k] = default_bounds(par)
-        self.mprobs = None  # ACGT order, once a step has set them
+        # per locus (key None for a single-locus function): ACGT order, once a step has set them
+        self.mprobs = {l: None for l in self.loci or [None]}
         self.mprobs_auto = True  # the function re-derives them from every new alignment until set_motif_probs is called
         self.track_mprobs = True
         self.bprobs = None
 
     def keys(self, par):
-        return [(par, None)] if par == "rate_shape" else [(par, e) for e in self.edges]
+        """LengthDefn has the dimension edge, the gamma shape none, rate parameters edge x bin x locus"""
+        if par == "rate_shape":
+            return [(par, None, None, None)]
+        if par == "length":
+            return [(par, e, None, None) for e in self.edges]
+        return [(par, e, b, l) for e in self.edges for b in self.bins or [None] for l in self.loci or [None]]
 
-    def set_rule(self, par, scope, value, const, indep, lower=None, upper=None):
+    def edge_value(self, par, e):
+        """the value of par on edge e if it is the same for every bin and locus, else None"""
+        vals = {self.val[k] for k in self.keys(par) if k[1] == e}
+        return vals.pop() if len(vals) == 1 else None
+
+    def uniform(self, par):
+        """no edge on which par differs between bins / loci (then the tree can carry the values, as the constructor
+        reads a parameter from the tree only when every edge has it)"""
+        return all(self.edge_value(par, e) is not None for e in self.edges)
+
+    def set_mprobs(self, probs, locus=None):
+        for l in self.mprobs:
+            if locus is None or l == locus:
+                self.mprobs[l] = None if probs is None else list(probs)
+
+    def set_rule(self, par, scope, value, const, indep, lower=None, upper=None, bins=None, loci=None):
         """model of _LeafDefn.assign_all; False when the rule must be rejected (bounds crossed), nothing assigned"""
         if par == "rate_shape":
-            groups = [[(par, None)]]
+            groups = [self.keys(par)]
         else:
-            sc = list(scope) if scope else list(self.edges)
+            # interpret_scopes: the selected categories of every dimension (all of them where none is named);
+            # 'independent' makes every selected (edge, bin, locus) its own group, else they form one group
+            sel = [k for k in self.keys(par) if (not scope or k[1] in scope) and (not bins or k[2] in bins) and (not loci or k[3] in loci)]
             independent = (par == "length") if indep is None else bool(indep)  # LengthDefn.independent_by_default
-            groups = [[(par, e)] for e in sc] if independent else [[(par, e) for e in sc]]
+            groups = [[k] for k in sel] if independent else [sel]
         new = []
         for g in groups:
             v = sum(self.val[k] for k in g) / len(g) if value is None else value
@@ -359,42 +464,50 @@ class Expect:
             ok, v = s.call("get_param_value", _reported, lf, k)
             if ok:
                 self.val[k] = v
-        if self.mprobs is not None or mprobs:
-            ok, v = s.call("get_motif_probs", reported_mprobs, lf)
-            self.mprobs = v if ok else None
+        for l in self.mprobs:
+            if self.mprobs[l] is not None or mprobs:
+                ok, v = s.call("get_motif_probs", reported_mprobs, lf, l)
+                self.mprobs[l] = v if ok else None
         if self.bprobs is not None or bprobs:
             ok, v = s.call("get_param_value", lambda: [float(x) for x in lf.get_param_value("bprobs")])
             self.bprobs = v if ok else None
 
 
 def _reported(lf, key):
-    par, e = key
-    return float(lf.get_param_value(par)) if e is None else float(lf.get_param_value(par, edge=e))
+    par, e, b, l = key
+    kw = {d: v for d, v in (("edge", e), ("bin", b), ("locus", l)) if v is not None}
+    return float(lf.get_param_value(par, **kw))
+
+
+def _where(key):
+    return " ".join(f"{d} {v}" for d, v in zip(("on edge", "bin", "locus"), key[1:]) if v is not None) or "(global)"
 
 
 def fresh_lnl(case, rows, exp, lf):
     """lnL of a newly built function holding the recorded values"""
     gs = case["model"] == "GS"
+    dims = bool(exp.bins or exp.loci)
     # GeneralStationary: the constructor would evaluate the recorded rates with default motif probabilities,
     # a combination that may be infeasible although the recorded one is not; there the values are set as
     # constants inside one updates_postponed block so that only the final combination is evaluated
     f = build_lf(case, rows, None if gs else exp)
 
     def fill():
-        mp = exp.mprobs if exp.mprobs is not None else reported_mprobs(lf)
-        f.set_motif_probs(dict(zip("ACGT", mp)), is_constant=True)
+        for l in exp.mprobs:
+            mp = exp.mprobs[l] if exp.mprobs[l] is not None else reported_mprobs(lf, l)
+            f.set_motif_probs(dict(zip("ACGT", mp)), is_constant=True, **({} if l is None else {"locus": l}))
         if "bprobs" in lf.get_param_names():
             # the bin probabilities of a rate-heterogeneity model are free parameters too
             bp = exp.bprobs if exp.bprobs is not None else lf.get_param_value("bprobs")
             f.set_param_rule("bprobs", value=numpy.array(bp, dtype=float), is_constant=True)
         for par in exp.pars:
             if par == "rate_shape":
-                f.set_param_rule(par, value=exp.val[(par, None)], is_constant=True)
+                f.set_param_rule(par, value=exp.val[(par, None, None, None)], is_constant=True)
                 continue
             byval = {}
             for e in exp.edges:
-                v = exp.val[(par, e)]
-                if gs or (par == "length" and not v):  # the constructor replaces a zero length by its default
+                v = exp.edge_value(par, e)
+                if v is not None and (gs or (par == "length" and not v)):  # the constructor replaces a zero length by its default
                     byval.setdefault(v, []).append(e)
             for v, es in byval.items():
                 if len(es) == len(exp.edges):
@@ -403,8 +516,13 @@ def fresh_lnl(case, rows, exp, lf):
                     f.set_param_rule(par, edge=es[0], value=v, is_constant=True)
                 else:
                     f.set_param_rule(par, edges=es, value=v, is_constant=True)
+            if not exp.uniform(par):
+                # the parameter differs between bins / loci on some edge: one constant per (edge, bin, locus)
+                for k in exp.keys(par):
+                    sc = {d: v for d, v in (("edge", k[1]), ("bin", k[2]), ("locus", k[3])) if v is not None}
+                    f.set_param_rule(par, value=exp.val[k], is_constant=True, **sc)
 
-    if gs:
+    if gs or dims:
         with f.updates_postponed():
             fill()
     else:
@@ -426,6 +544,28 @@ def _prob_floor_tag(lf):
     return ""
 
 
+def _overlap_tag(rules, exp):
+    """names the circumstance in which the ORDER of the exported rules matters: two rules of one parameter
+    name scopes (edges x bins x loci, a missing dimension = all of it) that share an (edge, bin, locus).
+    That happens when the scopes sharing a setting do not form a full box: the rule then names the
+    categories used in each dimension, which also cover scopes that belong to another rule"""
+    seen = {}
+    for r in rules:
+        box = []
+        for one, many, every in (("edge", "edges", exp.edges), ("bin", "bins", exp.bins), ("locus", "loci", exp.loci)):
+            if r.get(one) is not None:
+                box.append({r[one]})
+            elif r.get(many) is not None:
+                box.append(set(r[many]))
+            else:
+                box.append(None)  # all
+        for other in seen.get(r["par_name"], []):
+            if all(a is None or b is None or a & b for a, b in zip(box, other)):
+                return "[non-rectangular-scope]"
+        seen.setdefault(r["par_name"], []).append(box)
+    return ""
+
+
 def resolve_par(st_, gs_pars):
     par = st_["par"]
     if par == "GSPAR":
@@ -441,6 +581,14 @@ def rule_of(st_, gs_pars):
             kw["edge"] = st_["scope"][0]
         else:
             kw["edges"] = list(st_["scope"])
+    for one, many in (("bin", "bins"), ("locus", "loci")):
+        names = st_.get(many)
+        if names:
+            # 'bin=' takes one name, 'bins=' a list (set_param_rule docstring)
+            if len(names) == 1 and st_.get("idx", 0) % 2 == 0:
+                kw[one] = names[0]
+            else:
+                kw[many] = list(names)
     if st_["indep"] is not None:
         kw["is_independent"] = st_["indep"]
     if st_["const"]:
@@ -469,6 +617,10 @@ def bad_rule_of(st_):
         return dict(par_name="psubs", init=v)
     if kind == "unknown-dimension":
         return dict(par_name="length", bin="bin0", init=v)
+    if kind == "unknown-bin":
+        return dict(par_name=par, bin="nosuchbin", edge=e, init=v)
+    if kind == "unknown-locus":
+        return dict(par_name=par, loci=["nosuchlocus"], init=v)
     raise ValueError(kind)
 
 
@@ -484,6 +636,8 @@ def bad_exceptions(kind):
         "unknown-par": (KeyError,),
         "derived-par": (ValueError,),
         "unknown-dimension": (InvalidDimensionError,),
+        "unknown-bin": (InvalidScopeError,),
+        "unknown-locus": (InvalidScopeError,),
         "mprobs-sum": (ValueError,),
     }[kind]
 
@@ -533,12 +687,10 @@ def close(a, b, rtol=1e-9):
 
 # ------------------------------------------------------------ lf histories
 def exec_lf(case) -> Soft:
-    from cogent3 import make_aligned_seqs
-
     s = Soft("C07/")
     model = case["model"]
     gs_ok = GS_OK.get(model, ())
-    state = {"rows": dict(case["aln"]), "poisoned": False, "unsettled": False}
+    state = {"rows": case["aln"], "poisoned": False, "unsettled": False}
     ok, lf = s.call("construct", build_lf, case, state["rows"], allowed=gs_ok)
     if not ok:
         return s
@@ -547,6 +699,10 @@ def exec_lf(case) -> Soft:
     s.cls("model:" + model)
     if case.get("opt_mprobs"):
         s.cls("optimise_motif_probs")
+    if exp.bins and model != "HKY85+G":
+        s.cls("bins-without-distribution")
+    if exp.loci:
+        s.cls("multi-locus")
     n_steps = 0
     change_after_block = False
     seen_block = False
@@ -558,16 +714,19 @@ def exec_lf(case) -> Soft:
             for k in exp.val:
                 okv, v = s.call("get_param_value", _reported, lf, k)
                 if okv and not close(v, exp.val[k], 1e-12):
-                    s.fail(POISON_SIG if poisoned else tag + "/reported-vs-intended", f"{k[0]} on edge {k[1]} reported as {v!r}, intended {exp.val[k]!r} -- {what}")
+                    s.fail(POISON_SIG if poisoned else tag + "/reported-vs-intended", f"{k[0]} {_where(k)} reported as {v!r}, intended {exp.val[k]!r} -- {what}")
                     # one report per divergence: continue from what the function reports, so that the lnL
                     # comparison below and the later steps look for further, independent disagreements
                     exp.resync(lf, s)
                     break
-            if exp.mprobs is not None:
-                okv, v = s.call("get_motif_probs", reported_mprobs, lf)
-                if okv and not all(close(a_, b_, 1e-9) for a_, b_ in zip(v, exp.mprobs)):
-                    s.fail(POISON_SIG if poisoned else tag + "/reported-vs-intended", f"motif probs reported {v}, intended {exp.mprobs} -- {what}")
+            for l in exp.mprobs:
+                if exp.mprobs[l] is None:
+                    continue
+                okv, v = s.call("get_motif_probs", reported_mprobs, lf, l)
+                if okv and not all(close(a_, b_, 1e-9) for a_, b_ in zip(v, exp.mprobs[l])):
+                    s.fail(POISON_SIG if poisoned else tag + "/reported-vs-intended", f"motif probs{'' if l is None else ' of locus ' + l} reported {v}, intended {exp.mprobs[l]} -- {what}")
                     exp.resync(lf, s)
+                    break
             if exp.bprobs is not None:
                 okv, v = s.call("get_param_value", lambda: [float(x) for x in lf.get_param_value("bprobs")])
                 if okv and not all(close(a_, b_, 1e-9) for a_, b_ in zip(v, exp.bprobs)):
@@ -590,21 +749,24 @@ def exec_lf(case) -> Soft:
         if mprobs_unknown:
             # a rejected set_motif_probs may or may not have switched off the re-derivation of the
             # motif probabilities from later alignments: stop recording them, read them instead
-            exp.mprobs, exp.track_mprobs = None, False
+            exp.set_mprobs(None)
+            exp.track_mprobs = False
 
     def record(st_):
         """advance the record by one accepted inner / top-level change; False if it must be rejected"""
         op = st_["op"]
         if op == "set_param":
-            return exp.set_rule(resolve_par(st_, gs_pars), st_["scope"], st_["value"], st_["const"], st_["indep"], st_.get("lower"), st_.get("upper"))
+            return exp.set_rule(resolve_par(st_, gs_pars), st_["scope"], st_["value"], st_["const"], st_["indep"], st_.get("lower"), st_.get("upper"), st_.get("bins"), st_.get("loci"))
         if op == "set_mprobs":
+            # whichever locus is named, the function stops deriving motif probabilities from alignments
+            # (set_motif_probs: 'self.mprobs_from_alignment = False  # should be done per-locus')
             exp.mprobs_auto = False
             if exp.track_mprobs:
-                exp.mprobs = list(st_["probs"])
+                exp.set_mprobs(st_["probs"], st_.get("locus"))
         elif op == "set_alignment":
-            state["rows"] = dict(st_["rows"])
+            state["rows"] = st_["rows"]
             if exp.mprobs_auto:
-                exp.mprobs = None  # derived from the new alignment
+                exp.set_mprobs(None)  # derived from the new alignment(s), per locus
         return True
 
     def run(st_):
@@ -612,9 +774,9 @@ def exec_lf(case) -> Soft:
         if op == "set_param":
             apply_param(lf, st_, gs_pars)
         elif op == "set_mprobs":
-            lf.set_motif_probs(dict(zip("ACGT", st_["probs"])))
+            lf.set_motif_probs(dict(zip("ACGT", st_["probs"])), **({"locus": st_["locus"]} if st_.get("locus") else {}))
         elif op == "set_alignment":
-            lf.set_alignment(make_aligned_seqs(dict(st_["rows"]), moltype="dna"))
+            lf.set_alignment(make_alns(st_["rows"]))
         elif op == "bad":
             run_bad(lf, st_)
         else:
@@ -626,6 +788,13 @@ def exec_lf(case) -> Soft:
         what = f"model {model} tree {case['tree']} step {i} {st_} after {case['steps'][:i]}"
         if op in ("set_param", "set_mprobs", "set_alignment"):
             tag = {"set_param": "set_param_rule", "set_mprobs": "set_motif_probs", "set_alignment": "set_alignment"}[op]
+            if op == "set_mprobs" and st_.get("locus") and exp.track_mprobs:
+                # the motif probabilities of the OTHER loci must stay what they are (derived from their alignments
+                # if no step has set them): read them before the step, from now on they are part of the record
+                for l in exp.mprobs:
+                    if l != st_["locus"] and exp.mprobs[l] is None:
+                        okv, v = s.call("get_motif_probs", reported_mprobs, lf, l)
+                        exp.mprobs[l] = v if okv else None
             ok, _ = s.call(tag, run, st_, allowed=_infeasible() if op == "set_param" else gs_ok)
             if not record(st_):
                 raise HarnessError(f"generated rule has crossed bounds: {what}")
@@ -635,6 +804,10 @@ def exec_lf(case) -> Soft:
                 state["unsettled"] = False
                 if op == "set_param" and any(st_.get(b) is not None for b in ("lower", "upper")):
                     s.cls("rule-with-bounds")
+                if op == "set_param" and (st_.get("bins") or st_.get("loci")):
+                    s.cls("rule-scoped-by-" + "+".join(d for d, k_ in (("bin", "bins"), ("locus", "loci"), ("edge", "scope")) if st_.get(k_)))
+                if op == "set_mprobs" and st_.get("locus"):
+                    s.cls("motif-probs-of-one-locus")
                 if seen_block and op == "set_param":
                     change_after_block = True
                 verify(tag, what)
@@ -742,11 +915,14 @@ def exec_lf(case) -> Soft:
             if ok and not state["unsettled"]:
                 okl, l2 = s.call("apply_param_rules/lnL", lambda: float(f2.lnL), allowed=gs_ok)
                 okl2, l1 = s.call("rules/lnL", lambda: float(lf.lnL), allowed=gs_ok)
+                overlap = _overlap_tag(rules, exp)
                 if okl and okl2 and not close(l1, l2):
-                    s.fail(POISON_SIG if state["poisoned"] else "rules-roundtrip/lnL" + _prob_floor_tag(lf), f"{what}: lnL {l1!r} after export/import {l2!r}")
+                    s.fail(POISON_SIG if state["poisoned"] and not overlap else "rules-roundtrip/lnL" + (overlap or _prob_floor_tag(lf)), f"{what}: lnL {l1!r} after export/import {l2!r}; rules {rules}")
                 okn, nfp = s.call("rules/nfp", lambda: (lf.get_num_free_params(), f2.get_num_free_params()))
                 if okn:
-                    s.eq(nfp[1], nfp[0], "rules-roundtrip/num-free-params", what)
+                    s.eq(nfp[1], nfp[0], POISON_SIG if state["poisoned"] and not overlap else "rules-roundtrip/num-free-params" + overlap, f"{what}; rules {rules}")
+                if overlap:
+                    s.cls("rules-roundtrip:overlapping-scopes")
             s.cls("rules-roundtrip")
         n_steps += 1
     s.nontrivial = n_steps >= 4 and change_after_block
@@ -931,7 +1107,7 @@ KNOWN_PREDICATES = {}
 
 META = {
     "technique": "Hypothesis-generated histories of likelihood-function edits (accepted and rejected) and calculator change vectors, each step compared with a history-free rebuild (fresh function holding the harness's own record of the intended settings as constants / fresh calculator without undo)",
-    "level_text": "Hundreds of generated histories per run over eight model families (incl. non-stationary, gamma-binned, GeneralStationary and a codon model, with constant or optimisable motif probabilities) exercise scoped and shared parameter rules with and without bounds, motif probabilities, alignment replacement, time-heterogeneity and local-clock helpers, postponed update blocks and apply_param_rules batches, changes the library must reject (alone and in the middle of a block, after which the history continues), short optimiser runs, rule export/import and calculator change sequences with reverts, reverts combined with other changes, repeats and rejected vectors; after every step every reported parameter value must equal the harness's record of what was set and the incrementally maintained log-likelihood must equal that of an object built from scratch with the recorded settings (1e-9 relative).",
-    "level_note": "Both sides are computed by cogent3 (the oracle is history-freeness, the absolute value is C02's subject). Bins beyond the gamma model's shape parameter, multi-locus functions and clade / stem / outgroup scopes are not driven; the state between a GeneralStationary rejection and the next accepted change is not asserted.",
+    "level_text": "Hundreds of generated histories per run over eight model families (incl. non-stationary, gamma-binned, GeneralStationary and a codon model, with constant or optimisable motif probabilities; nucleotide models also with several bins without a distribution and / or several loci) exercise parameter rules scoped by edge, bin and locus (alone and combined), shared or independent, with and without bounds, motif probabilities, alignment replacement, time-heterogeneity and local-clock helpers, postponed update blocks and apply_param_rules batches, changes the library must reject (alone and in the middle of a block, after which the history continues), short optimiser runs, rule export/import and calculator change sequences with reverts, reverts combined with other changes, repeats and rejected vectors; after every step every reported parameter value must equal the harness's record of what was set and the incrementally maintained log-likelihood must equal that of an object built from scratch with the recorded settings (1e-9 relative).",
+    "level_note": "Both sides are computed by cogent3 (the oracle is history-freeness, the absolute value is C02's subject). Bins / loci on the codon and GeneralStationary models, bin probabilities per locus, motif probabilities per edge, sites_independent=False (bin_switch) and clade / stem / outgroup scopes are not driven; the number of free parameters is compared between the function and its re-import, not with the record; the state between a GeneralStationary rejection and the next accepted change is not asserted.",
     "design_ref": "DESIGN.md section 1, C07",
 }
